@@ -56,7 +56,13 @@ type cobsOut struct {
 }
 
 // runCobs feeds stream (cut as given) through a fresh CobsWrapper and returns everything Read returned.
+// cobsCallerBuf is the length of the buffer the caller hands to Read, as a multiple of the wrapper's maximum
+// message length (0 = the same length, what the serial client uses).
 func runCobs(stream []byte, cuts []int, maxLen int) (outs []cobsOut, hung bool) {
+	return runCobsBuf(stream, cuts, maxLen, maxLen)
+}
+
+func runCobsBuf(stream []byte, cuts []int, maxLen, bufLen int) (outs []cobsOut, hung bool) {
 	defer func() {
 		if e := recover(); e != nil {
 			outs = append(outs, cobsOut{Err: fmt.Sprint("PANIC: ", e)})
@@ -70,7 +76,7 @@ func runCobs(stream []byte, cuts []int, maxLen int) (outs []cobsOut, hung bool) 
 		if i > limit {
 			return outs, true
 		}
-		buf := make([]byte, maxLen)
+		buf := make([]byte, bufLen)
 		n, err := cw.Read(buf)
 		if err == io.EOF {
 			return outs, false
@@ -214,9 +220,22 @@ func genFrames(r *vlib.R, maxLen int, short bool) [][]byte {
 }
 
 func checkClean(c *vlib.Ctx, frames [][]byte, stream []byte, cuts []int, maxLen int, cls string) bool {
-	outs, hung := runCobs(stream, cuts, maxLen)
+	if len(cuts) <= 1 {
+		// a caller whose buffer is larger than the longest message (the device then hands over a whole burst
+		// of frames in one read)
+		for _, bl := range []int{2*maxLen + 7, 8 * maxLen} {
+			if !checkCleanBuf(c, frames, stream, cuts, maxLen, bl, cls+" bigbuf") {
+				return false
+			}
+		}
+	}
+	return checkCleanBuf(c, frames, stream, cuts, maxLen, maxLen, cls)
+}
+
+func checkCleanBuf(c *vlib.Ctx, frames [][]byte, stream []byte, cuts []int, maxLen, bufLen int, cls string) bool {
+	outs, hung := runCobsBuf(stream, cuts, maxLen, bufLen)
 	c.Eval(1)
-	wit := map[string]any{"frames": frames, "stream": stream, "cuts": cuts, "maxLen": maxLen, "outputs": outs}
+	wit := map[string]any{"frames": frames, "stream": stream, "cuts": cuts, "maxLen": maxLen, "caller_buffer": bufLen, "outputs": outs}
 	if hung {
 		c.Violate("cobs:no-progress", "Read made no progress on an undamaged stream", wit)
 		return false
@@ -380,6 +399,18 @@ func runC16(tier string, _ []string) int {
 			maxLen = 64
 		}
 		frames := genFrames(r, maxLen, short)
+		if short && i%9 == 3 {
+			// a burst: dozens of short frames, several times the maximum message length in all
+			for len(frames) < 40+r.Intn(40) {
+				more := genFrames(r, maxLen, true)
+				for _, f := range more {
+					if len(f) >= 3 {
+						f[2] = byte(len(frames)) // keep them pairwise distinct
+					}
+					frames = append(frames, f)
+				}
+			}
+		}
 		stream, lead, trail, err := encodeFrames(frames, maxLen)
 		if err != nil {
 			c.Violate("cobs:write-format", err.Error(), map[string]any{"frames": frames})
